@@ -44,7 +44,7 @@ type cmpOperand struct {
 
 type comparator struct {
 	fn      *ssa.Function
-	decl    *ast.FuncDecl
+	body    *ast.BlockStmt
 	info    *types.Info
 	locals  map[string]string // local name -> side
 	prefix  map[string]string // local name -> key path the local stands for (bound parameters of a followed call)
@@ -341,7 +341,7 @@ func (cm *comparator) evalCall(call *ast.CallExpr, rel map[string]int) (bool, bo
 	if decl == nil || decl.Body == nil {
 		return false, false
 	}
-	sub := &comparator{fn: cm.fn, decl: decl, info: cm.info, locals: map[string]string{}, prefix: map[string]string{}, strict: cm.strict, keys: cm.keys, prog: cm.prog, depth: cm.depth + 1, jStrip: cm.jStrip, ident: cm.ident}
+	sub := &comparator{fn: cm.fn, body: decl.Body, info: cm.info, locals: map[string]string{}, prefix: map[string]string{}, strict: cm.strict, keys: cm.keys, prog: cm.prog, depth: cm.depth + 1, jStrip: cm.jStrip, ident: cm.ident}
 	sub.params = [2]string{"\x00", "\x00"}
 	bind := func(name string, e ast.Expr) bool {
 		if name == "" || name == "_" {
@@ -402,13 +402,20 @@ func (cm *comparator) operandAny(e ast.Expr) (cmpOperand, bool) {
 }
 
 func newComparator(p *Program, fn *ssa.Function) *comparator {
-	fd, ok := fn.Syntax().(*ast.FuncDecl)
-	if !ok || fd.Body == nil {
+	var body *ast.BlockStmt
+	var ftype *ast.FuncType
+	switch fd := fn.Syntax().(type) {
+	case *ast.FuncDecl:
+		body, ftype = fd.Body, fd.Type
+	case *ast.FuncLit: // the less function handed to sort.Slice / sort.SliceStable
+		body, ftype = fd.Body, fd.Type
+	}
+	if body == nil {
 		return nil
 	}
-	cm := &comparator{fn: fn, decl: fd, info: p.infoFor(fn), locals: map[string]string{}, prefix: map[string]string{}, strict: map[string]bool{}, prog: p}
+	cm := &comparator{fn: fn, body: body, info: p.infoFor(fn), locals: map[string]string{}, prefix: map[string]string{}, strict: map[string]bool{}, prog: p}
 	var names []string
-	for _, f := range fd.Type.Params.List {
+	for _, f := range ftype.Params.List {
 		for _, n := range f.Names {
 			names = append(names, n.Name)
 		}
@@ -418,7 +425,7 @@ func newComparator(p *Program, fn *ssa.Function) *comparator {
 	}
 	cm.params = [2]string{names[0], names[1]}
 	// local bindings  x := <recv...>[i|j]
-	for _, s := range fd.Body.List {
+	for _, s := range body.List {
 		as, ok := s.(*ast.AssignStmt)
 		if !ok || as.Tok != token.DEFINE || len(as.Lhs) != 1 || len(as.Rhs) != 1 {
 			continue
@@ -443,7 +450,7 @@ func newComparator(p *Program, fn *ssa.Function) *comparator {
 
 // less evaluates Less(i,j) under rel.
 func (cm *comparator) less(rel map[string]int) (bool, bool) {
-	r, ret, ok := cm.evalBlock(cm.decl.Body.List, rel)
+	r, ret, ok := cm.evalBlock(cm.body.List, rel)
 	if !ok {
 		return false, false
 	}
@@ -472,6 +479,15 @@ func sortSites(p *Program) []sortSite {
 				return
 			}
 			n := calleeName(&call.Call)
+			if n == "sort.Slice" || n == "sort.SliceStable" {
+				// the comparator is a function value; the collection is the first argument
+				if mi, ok := call.Call.Args[0].(*ssa.MakeInterface); ok {
+					if less := p.funcValue(call.Call.Args[1]); less != nil && p.inModule(less) {
+						out = append(out, sortSite{fn, call, less, false, mi.X})
+					}
+				}
+				return
+			}
 			if n != "sort.Sort" && n != "sort.Stable" {
 				return
 			}
@@ -743,6 +759,10 @@ func ruleC03b(c *Ctx) {
 			}
 			if ruleC03bCoversReturn(c, s, r) {
 				continue // decided path-wise below (a list of fewer than two candidates needs no sort)
+			}
+			if fewerThanTwoAt(p, s, r) {
+				c.ok(name, "candidates are sorted before they are handed on", p.ipos(r), "this return is only reached with fewer than two candidates: there is nothing to order")
+				continue
 			}
 			c.check(instrDominates(s.Call, r), name, "candidates are sorted before they are handed on", p.ipos(r), "sort.Sort dominates this return", "an unsorted candidate list is returned")
 		}
@@ -1023,8 +1043,21 @@ func ruleC03c(c *Ctx) {
 			scoreVal = ex
 		}
 	}
+	// the scan may be written as several loops (find the first match, then look for better ones): every call of the scorer counts
+	scoreVals := map[ssa.Value]bool{scoreVal: true}
+	var scoreCalls []*ssa.Call
+	eachInstr(scan, func(i ssa.Instruction) {
+		if call, ok := i.(*ssa.Call); ok && call.Call.StaticCallee() == scorer {
+			scoreCalls = append(scoreCalls, call)
+			for _, r := range referrers(call) {
+				if ex, ok := r.(*ssa.Extract); ok && ex.Index == 1 {
+					scoreVals[ex] = true
+				}
+			}
+		}
+	})
 	// every edge on which the best service is replaced carries "this score > best score so far"
-	strict := false
+	strict, notStrict := false, false
 	sfacts := factsAt(scan)
 	eachInstr(scan, func(i ssa.Instruction) {
 		phi, ok := i.(*ssa.Phi)
@@ -1045,7 +1078,7 @@ func ruleC03c(c *Ctx) {
 			okEdge := false
 			for f := range sfacts[pred] {
 				bo, isB := f.Cond.(*ssa.BinOp)
-				if !isB || !f.Pol || bo.Op != token.GTR || strip(bo.X) != scoreVal {
+				if !isB || !f.Pol || bo.Op != token.GTR || !scoreVals[strip(bo.X)] {
 					continue
 				}
 				if _, isPhi := strip(bo.Y).(*ssa.Phi); isPhi {
@@ -1053,11 +1086,24 @@ func ruleC03c(c *Ctx) {
 				}
 			}
 			if !okEdge {
-				allStrict = false
+				// the first assignment: at this merge every other incoming value is the initial nil, so no best existed
+				// on any path (a best assigned earlier would arrive here as a phi, not as nil)
+				first := true
+				for k2, e2 := range phi.Edges {
+					if k2 != k && !isNilConst(e2) {
+						first = false
+					}
+				}
+				if !first {
+					allStrict = false
+				}
 			}
 		}
 		if nrep > 0 && allStrict {
 			strict = true
+		}
+		if nrep > 0 && !allStrict {
+			notStrict = true
 		}
 		// the remembered best score moves with the best service
 		for k, e := range phi.Edges {
@@ -1073,7 +1119,7 @@ func ruleC03c(c *Ctx) {
 				if !ok {
 					break
 				}
-				if sp != phi && k < len(sp.Edges) && strip(sp.Edges[k]) == scoreVal {
+				if sp != phi && k < len(sp.Edges) && scoreVals[strip(sp.Edges[k])] {
 					moved = true
 				}
 			}
@@ -1081,39 +1127,71 @@ func ruleC03c(c *Ctx) {
 				"the best service is replaced but the score it is compared with is not updated: every later service with any score above the initial value replaces it, so the last match wins instead of the best")
 		}
 	})
-	c.check(strict, sname, "the best root is replaced only by a strictly better one", p.ipos(scoreCall), "eachScore > score", "the best service is replaced on an equal score as well")
+	c.check(strict && !notStrict, sname, "the best root is replaced only by a strictly better one", p.ipos(scoreCall), "eachScore > score", "the best service is replaced on an equal score as well")
 	cyc := blocksOnCycles(scan)
-	if !cyc[scoreCall.Block()] {
+	inLoop := false
+	for _, sc := range scoreCalls {
+		if cyc[sc.Block()] {
+			inLoop = true
+		}
+	}
+	if !inLoop {
 		c.bad(sname, "every service is scored", p.ipos(scoreCall), "the scorer is not called in a loop over the services")
 		return
 	}
-	var header *ssa.BasicBlock
-	for b := scoreCall.Block(); b != nil; b = b.Idom() {
-		if cyc[b] {
-			if _, ok := b.Instrs[len(b.Instrs)-1].(*ssa.If); ok {
-				for _, s := range b.Succs {
-					if !reachableBlocks([]*ssa.BasicBlock{s}, nil)[b] {
-						header = b
+	early := ""
+	anyHeader := false
+	for _, sc := range scoreCalls {
+		if !cyc[sc.Block()] {
+			continue
+		}
+		// the innermost loop around this call of the scorer
+		var header *ssa.BasicBlock
+		for b := sc.Block(); b != nil && header == nil; b = b.Idom() {
+			if cyc[b] && reachableAfter(sc.Block(), nil)[b] {
+				if _, ok := b.Instrs[len(b.Instrs)-1].(*ssa.If); ok {
+					for _, s := range b.Succs {
+						if !reachableBlocks([]*ssa.BasicBlock{s}, nil)[b] {
+							header = b
+						}
 					}
 				}
 			}
 		}
-	}
-	early := ""
-	if header != nil {
+		if header == nil {
+			continue
+		}
+		anyHeader = true
 		var body []*ssa.BasicBlock
+		fromH := reachableAfter(header, nil)
 		for _, b := range scan.Blocks {
-			if b != header && cyc[b] && reachableAfter(b, nil)[header] {
+			if b != header && cyc[b] && fromH[b] && reachableAfter(b, nil)[header] {
 				body = append(body, b)
 			}
 		}
-		for b := range reachableBlocks(body, map[*ssa.BasicBlock]bool{header: true}) {
-			if !cyc[b] {
-				early = "block " + b.String() + " (" + p.ipos(b.Instrs[0]) + ") leaves the loop before all services were scored"
+		inBody := map[*ssa.BasicBlock]bool{header: true}
+		for _, b := range body {
+			inBody[b] = true
+		}
+		for _, b := range body {
+			for _, s := range b.Succs {
+				if inBody[s] {
+					continue
+				}
+				// leaving the loop from its body: fine when what follows is another loop that scores the rest of the list
+				continues := false
+				for _, sc2 := range scoreCalls {
+					if sc2 != sc && cyc[sc2.Block()] && !inBody[sc2.Block()] && reachableBlocks([]*ssa.BasicBlock{s}, nil)[sc2.Block()] {
+						continues = true
+					}
+				}
+				if !continues {
+					early = "block " + s.String() + " (" + p.ipos(s.Instrs[0]) + ") leaves the loop before all services were scored"
+				}
 			}
 		}
 	}
-	c.check(header != nil && early == "", sname, "the scan over the services runs to exhaustion", p.ipos(scoreCall), "the loop's only exit is the end of the list",
+	c.check(anyHeader && early == "", sname, "the scan over the services runs to exhaustion", p.ipos(scoreCall), "the loop's only exit is the end of the list (or a following loop scores the rest)",
 		early+": a better (more literal) root registered later is never considered, so the outcome depends on registration order")
 }
 
